@@ -68,9 +68,10 @@ type hop struct {
 }
 
 type treeReq struct {
-	M   string            `json:"m"`
-	Raw string            `json:"raw"` // raw request path, bytes encoded by encBytes
-	H   map[string]string `json:"h,omitempty"`
+	M    string            `json:"m"`
+	Raw  string            `json:"raw"` // raw request path, bytes encoded by encBytes
+	H    map[string]string `json:"h,omitempty"`
+	Nest string            `json:"nest,omitempty"` // a middleware serves this path as a nested request through the same Flame first
 }
 
 type urlCall struct {
@@ -325,7 +326,23 @@ func newTreeExec(via string, c *treeCase) *treeExec {
 	} else {
 		flamego.SetEnv(flamego.EnvTypeTest)
 		x.f = flamego.NewWithLogger(io.Discard)
-		x.f.Use(func(c flamego.Context) { x.chains++ })
+		// three separate Use calls (the middleware slice then has spare capacity): chain counter, a no-op, and a
+		// middleware that serves a nested request through the same Flame before the chain goes on
+		x.f.Use(func(c flamego.Context) {
+			if c.Request().Header.Get("X-Sub") == "" {
+				x.chains++
+			}
+		})
+		x.f.Use(func(w http.ResponseWriter) {})
+		x.f.Use(func(c flamego.Context) {
+			p := c.Request().Header.Get("X-Nest")
+			if p == "" || c.Request().Header.Get("X-Sub") != "" {
+				return
+			}
+			sub := &http.Request{Method: "GET", URL: &url.URL{Path: decBytes(p)}, Header: http.Header{"X-Sub": {"1"}}, Proto: "HTTP/1.1", ProtoMajor: 1, ProtoMinor: 1, Host: "x"}
+			x.f.ServeHTTP(httptest.NewRecorder(), sub)
+			x.last = serveOut{} // what the nested request observed is not this request's outcome
+		})
 		if len(c.H)%2 == 0 {
 			// a user-supplied not-found chain on every other case, the default http.NotFound otherwise
 			x.f.NotFound(func(w http.ResponseWriter) {
@@ -456,6 +473,17 @@ func (x *treeExec) registerMulti(i int, es []hEntry) (accepted bool, detail stri
 		}
 	}
 	return true, ""
+}
+
+func (x *treeExec) serveNested(m, raw string, hdr map[string]string, nest string) serveOut {
+	if nest == "" || x.via != "flame" {
+		return x.serve(m, raw, hdr)
+	}
+	h2 := map[string]string{"X-Nest": nest}
+	for k, v := range hdr {
+		h2[k] = v
+	}
+	return x.serve(m, raw, h2)
 }
 
 func (x *treeExec) serve(m, raw string, hdr map[string]string) (o serveOut) {
@@ -908,7 +936,7 @@ func (x *treeExec) run(tr *traceWriter) {
 	for qi, rq := range c.Reqs {
 		raw := decBytes(rq.Raw)
 		x.emptyHdr = qi % 3
-		o := x.serve(rq.M, raw, rq.H)
+		o := x.serveNested(rq.M, raw, rq.H, rq.Nest)
 		emitServe(rq.M, raw, rq.H, o)
 	}
 	// (3) URL building
